@@ -454,6 +454,20 @@ Proof.
   apply Ne. apply N2Nat.inj in Ek. congruence.
 Qed.
 
+(* ------------------------------------------------------------------ sign() then verify() *)
+(* HOLDS since fix 6d1bd7f: what sign() accepts, verify() accepts (the generated flag says whether the
+   source still evaluates the size bound before the signature is in place; if it does again, this
+   proof no longer checks) *)
+Lemma sign_then_verify : forall l r j, sign_accept l r j = true -> accept l r j = true.
+Proof.
+  intros l r j Sa. unfold sign_accept in Sa.
+  apply andb_true_iff in Sa. destruct Sa as [Sa Sm]. apply andb_true_iff in Sa. destruct Sa as [Sw Sj].
+  unfold accept, wf_row. rewrite Sw, Sj. cbn [andb]. rewrite andb_true_r.
+  destruct (l_maxlen l) as [m|]; [|reflexivity].
+  destruct sign_size_excludes_signature eqn:F; [vm_compute in F; discriminate F|].
+  exact Sm.
+Qed.
+
 (* ------------------------------------------------------------------ signatures (idealised) *)
 Section Signatures.
   Variable Hf : list byte -> list byte.                       (* the hash *)
@@ -511,17 +525,7 @@ Section Signatures.
     - cbn [run_C06_gen spec_C06 known_C06_gen] in *. destruct (layout_of k) as [l|]; [|discriminate Ok].
       rewrite rev_app_distr. cbn [rev app].
       destruct (sign_accept l r j) eqn:Sa; cbn [zb Z.eqb negb orb andb]; [|reflexivity].
-      assert (A : accept l r j = true); [|rewrite A; reflexivity].
-      unfold sign_accept in Sa. apply andb_true_iff in Sa. destruct Sa as [Sa Sm].
-      apply andb_true_iff in Sa. destruct Sa as [Sw Sj].
-      unfold accept, wf_row. rewrite Sw, Sj. cbn [andb].
-      destruct (l_maxlen l) as [m|]; [|reflexivity].
-      fold (body_len l r).
-      destruct ((m <? body_len l r + sig_len)%N && (body_len l r <=? m)%N) eqn:Win; [discriminate K|].
-      apply N.leb_le in Sm. rewrite andb_true_r. apply N.leb_le.
-      apply andb_false_iff in Win. destruct Win as [Win|Win].
-      + apply N.ltb_ge in Win. exact Win.
-      + apply N.leb_gt in Win. destruct sign_size_excludes_signature; unfold sig_len in *; lia.
+      rewrite (sign_then_verify l r j Sa). reflexivity.
     - cbn [run_C06_gen spec_C06 known_C06_gen] in *.
       destruct (layout_of k1) as [l1|] eqn:L1; [|discriminate Ok].
       destruct (layout_of k2) as [l2|] eqn:L2; [|discriminate Ok].
